@@ -13,7 +13,8 @@ from props import C02
 
 RULE = ("cases = corpus + seeded random target sets with planted defects (self-loop, k-cycle at a random position reachable or not "
         "from the first-defined target, duplicate producer through different spellings, missing source) and without; plus chains of "
-        "thousands of targets in forward and reverse definition order; non-trivial = the set has a planted defect or a dependency "
+        "thousands of targets in forward and reverse definition order, and ladders (40 [200] layers of 2 targets, each reading both "
+        "outputs of the layer below: 2**layers dependency paths) that must return within 60 s; non-trivial = the set has a planted defect or a dependency "
         "whose producer is defined AFTER its consumer; distinct by canonical encoding")
 
 
@@ -117,6 +118,57 @@ def depth_runs(chk, n):
             shutil.rmtree(d, ignore_errors=True)
 
 
+def ladder_project(layers, width, reverse, cyc=False):
+    """`layers` layers of `width` targets, each reading ALL outputs of the layer below: few targets, but the number of
+    dependency PATHS is width**layers — validation must cost per target, not per path"""
+    ts = []
+    for k in range(layers):
+        for j in range(width):
+            ins = ["src"] if k == 0 else ["o%d_%d" % (k - 1, x) for x in range(width)]
+            ts.append({"name": "L%03d_%d" % (k, j), "wd": "/w", "inputs": ins, "outputs": ["o%d_%d" % (k, j)], "protect": [],
+                       "spec": "", "bstat": "u", "specflag": 0})
+    if cyc:
+        ts[0]["inputs"] = ["o%d_0" % (layers - 1)]
+    if reverse:
+        ts = ts[::-1]
+    return {"cwd": "/w", "targets": ts, "fs": {"/w/src": 0}, "endpoints": None, "hashing": False, "planted": ["cycle"] if cyc else []}
+
+
+class _Timeout(BaseException):
+    pass
+
+
+def width_runs(chk, layers):
+    """wide-and-deep DAGs: the real graph building + scheduling pass must return (within 60 s) with the model's verdict"""
+    import signal
+
+    def on_alarm(signum, frame):
+        raise _Timeout()
+    old = signal.signal(signal.SIGALRM, on_alarm)
+    try:
+        for reverse in (False, True):
+            for cyc in (False, True):
+                p = ladder_project(layers, 2, reverse, cyc)
+                chk.count("width-run")
+                signal.alarm(60)
+                try:
+                    il = C02.impl_case(p)
+                except _Timeout:
+                    il = "did-not-terminate-within-60s"
+                finally:
+                    signal.alarm(0)
+                ml = common.run_driver(["wf.plan " + impl_core.enc_proj(p)], timeout=900)[0]
+                chk.case(("width", layers, reverse, cyc), True, sample={"layers": layers, "width": 2, "reverse_definition_order": reverse, "cycle": cyc,
+                                                                        "implementation": il[:60], "model": ml[:60]} if not reverse and not cyc else None)
+                if C02.canon_plan(il) != C02.canon_plan(ml):
+                    chk.violation({"kind": "width", "impl": il.split(" ")[0]},
+                                  {"kind": "input", "input": {"ladder_layers": layers, "width": 2, "reverse": reverse, "cycle": cyc},
+                                   "implementation": il[:300], "model": ml[:300],
+                                   "what": "graph building / cycle check / scheduling does not return or differs on a DAG with %d targets and 2**%d dependency paths" % (2 * layers, layers)})
+    finally:
+        signal.signal(signal.SIGALRM, old)
+
+
 def run(chk):
     chk.rule = RULE
     chk.assumptions = ["'terminates without crashing at any size' is a statement about the interpreter's stack: the theorems prove termination and "
@@ -135,6 +187,7 @@ def run(chk):
     for k in range(0, len(projs), 25000):
         check_sets(chk, projs[k:k + 25000], "random")
     depth_runs(chk, 3000 if chk.tier == "quick" else 20000)
+    width_runs(chk, 40 if chk.tier == "quick" else 200)
     # CLI level: every command on an invalid workflow fails with the graph's error and changes nothing
     import history_check as HC
     rule, assume = chk.rule, chk.assumptions
@@ -149,6 +202,9 @@ def replay(chk, data):
     if "focus" in data.get("input", {}):
         import history_check as HC
         return HC.replay_prop(chk, "C04", data, RULE)
+    if "ladder_layers" in data.get("input", {}):
+        width_runs(chk, data["input"]["ladder_layers"])
+        return chk.finish()
     if "targets" in data.get("input", {}):
         check_sets(chk, [data["input"]], "replay")
     else:
